@@ -4,11 +4,13 @@ package c04
 import (
 	"fmt"
 	"html/template"
+	"math"
 	"time"
 
 	plush "github.com/gobuffalo/plush/v5"
 	"github.com/gobuffalo/plush/v5/helpers/debug"
 	"github.com/gobuffalo/plush/v5/helpers/hctx"
+	"github.com/gobuffalo/plush/v5/helpers/iterators"
 	"github.com/gobuffalo/plush/v5/helpers/paths"
 
 	"verifharness/vrt"
@@ -33,6 +35,7 @@ func init() {
 	vrt.Register("C04_token_programs", TokenPrograms)
 	vrt.Register("C04_library_helpers", LibraryHelpers)
 	vrt.Register("C04_library_helpers_direct", LibraryHelpersDirect)
+	vrt.Register("C04_iterator_helpers_direct", IteratorHelpersDirect)
 	vrt.Register("C04_nested_render", NestedRender)
 }
 
@@ -361,6 +364,36 @@ func HelpersIter() {
 		}
 	}
 	total("<%= for (g) in "+h+" { %><%= g %>;<% } %>", ctx)
+}
+
+// groupBy called from Go with sizes at the ends of the int range over every kind of
+// value (from a template a panic of the helper is the call's error; here it is a
+// panic). The sizes are concrete: a symbolic divisor is beyond the solvers.
+func IteratorHelpersDirect() {
+	sizes := []int{math.MinInt, -1, 0, 1, 2, 3, 4, 1 << 62, math.MaxInt - 2, math.MaxInt - 1, math.MaxInt}
+	n := sizes[vrt.Choice(len(sizes))]
+	var u interface{}
+	switch vrt.Choice(5) {
+	case 0:
+		u = []string{"a", "b", "c"}
+	case 1:
+		u = [3]int{1, 2, 3}
+	case 2:
+		u = []interface{}{1, "x", nil, 2}
+	case 3:
+		u = &[]int{1, 2}
+	default:
+		u = val(vrt.Choice(nKinds))
+	}
+	it, err := iterators.GroupBy(n, u)
+	if err == nil && it != nil {
+		for i := 0; i < 6; i++ {
+			if it.Next() == nil {
+				break
+			}
+		}
+	}
+	vrt.Cover("done")
 }
 
 func val0IsInt(ctx *plush.Context) bool {
